@@ -4,7 +4,7 @@ From Coq Require Import ZArith Znumtheory.
 From mathcomp Require Import all_ssreflect all_algebra ssrZ.
 From V.Base Require Import PrimeBn256Order.
 From V.C14 Require Model Curve.
-From V.C13 Require Import Model ModInv Proofs Bridge Threshold Group Select Compose Node Robust CurveInst.
+From V.C13 Require Import Model ModInv Proofs Bridge Threshold Group Select Compose Node Robust CurveInst ParentSign.
 Import GRing.Theory.
 Local Open Scope ring_scope.
 Delimit Scope Z_scope with ZZ.
@@ -313,6 +313,37 @@ rewrite !pickE lmapE -map_comp; apply/eq_in_map => i /(allP insel) lti /=.
 by rewrite (nth_map 0%ZZ) // Z.mul_1_r.
 Qed.
 Print Assumptions C13_curve_group_level.
+
+(* Pieces that carry the hash they sign (the king's collection of parent-group pieces: pieces for another
+   hash are refused before the collector): the state after any arrival sequence is the state after the
+   current-hash pieces alone; if those are members' valid shares the recovered value is the group key's
+   signature however pieces for other hashes (valid or not) are interleaved, and k different members'
+   current-hash pieces suffice. *)
+Theorem C13_parent_sign_ignores_other_hashes :
+  forall (F : fieldType) (Hh : eqType) (cur : Hh) (g : @gen F) (msgs1 msgs2 : seq (Hh * (F * F * seq nat))),
+  [seq m.2 | m <- msgs1 & m.1 == cur] = [seq m.2 | m <- msgs2 & m.1 == cur] ->
+  prun cur g msgs1 = prun cur g msgs2.
+Proof. move=> F Hh cur g m1 m2; exact: prun_ignores_other. Qed.
+Print Assumptions C13_parent_sign_ignores_other_hashes.
+
+Theorem C13_parent_sign_result :
+  forall (F : fieldType) (Hh : eqType) (k : nat) (dealers : seq (seq F)) (h : F) (cur : Hh)
+         (msgs : seq (Hh * (F * F * seq nat))) (s : F),
+  all (fun cs => size cs <= k)%N dealers -> (0 < k)%N ->
+  all (fun m => (m.1 == cur) ==> msg_ok k dealers h m.2) msgs ->
+  g_sig (prun cur (gen_new k) msgs) = Some s -> s = group_secret (fops F) dealers * h.
+Proof. move=> F Hh k dealers h cur msgs s dk; exact: parent_sign_result. Qed.
+Print Assumptions C13_parent_sign_result.
+
+Theorem C13_parent_sign_live :
+  forall (F : fieldType) (Hh : eqType) (k : nat) (dealers : seq (seq F)) (h : F) (cur : Hh)
+         (msgs : seq (Hh * (F * F * seq nat))),
+  all (fun cs => size cs <= k)%N dealers -> (0 < k)%N ->
+  all (fun m => (m.1 == cur) ==> msg_ok k dealers h m.2) msgs ->
+  (k <= size (undup [seq m.2.1.1 | m <- msgs & m.1 == cur]))%N ->
+  g_sig (prun cur (gen_new k) msgs) <> None.
+Proof. move=> F Hh k dealers h cur msgs dk; exact: parent_sign_live. Qed.
+Print Assumptions C13_parent_sign_live.
 
 (* Non-vacuity: (a) the hypotheses of the Z-mod-q theorems are satisfiable (q = 3, ids 1,2, dealer
    polynomials 2+x and 1+2x); (b) a run over the real curve order: n = 5, k = 3, two dealers, two
